@@ -123,32 +123,69 @@ def completeness(ctx):
                 "the slot view iterates all maintenance nodes")
     must_depend(ctx, "R2.all-vehicles", "T1", J("fleet_to_json"), "ret", [call(S("vehicles_iter")), call(J("vehicle_to_json"))],
                 "the vehicle view iterates all vehicles of the type")
-    for fn, vec_ty, what in ((J("departure_segments_to_json"), "JsonDepartureSegmentWithFormation", "departure segment"),
-                             (J("maintenance_slots_to_json"), "JsonFleetMaintenanceSlotWithFormation", "maintenance slot"),
-                             (J("fleet_to_json"), "Vec<std::string::String>", "rotation cycle"),
-                             (J("fleet_to_json"), "JsonVehicle", "vehicle")):
+    targets = [
+        (J("departure_segments_to_json"), None, "departure segment"),
+        (J("maintenance_slots_to_json"), None, "maintenance slot"),
+        (J("fleet_to_json"), (J("JsonFleet"), "vehicle_cycles"), "rotation cycle"),
+        (J("fleet_to_json"), (J("JsonFleet"), "vehicles"), "vehicle"),
+    ]
+    for fn, fld, what in targets:
         o, fd = ctx.require_fn("R2.%s.every-%s-reported" % (fn.split("::")[-1], what.replace(" ", "-")), "T1", fn,
-                               "inside its loop every %s is pushed unconditionally (no filter)" % what)
+                               "every %s of the iterated set is reported: pushed unconditionally in a loop, or collected, over a sequence that is not narrowed (no filter/skip/take)" % what)
         if fd is None:
             continue
-        pushes = [c for c in fd.body.calls() if c.callee == "alloc::vec::Vec::push" and any(vec_ty in t for t in c.targs)]
-        if not pushes:
-            ctx.bad(o, "no push of a %s found" % what)
+        # the vector in question: the named field of the struct literal, or the returned vector
+        vec = None
+        if fld is None:
+            vec = root_local(fd, 0)
+            if vec == 0:
+                ds = [d for d in fd.defs.get(0, ()) if d.kind != "param"]
+                vec = 0
+        else:
+            for ins in fd.body.instrs():
+                if ins.kind == "assign" and ins.rv_kind() == "agg" and ins.rv.get("adt") == fld[0]:
+                    op = dict(zip(ins.rv["fields"], ins.ops)).get(fld[1])
+                    if op is not None and op.place is not None:
+                        vec = root_local(fd, op.place.local)
+        if vec is None:
+            ctx.undecided(o, "the vector holding the %ss was not found" % what)
             continue
-        bad = []
-        narrowed = []
+        verdict = sequence_completeness(fd, vec)
+        if verdict[0] == "ok":
+            ctx.ok(o, verdict[1])
+        elif verdict[0] == "bad":
+            ctx.bad(o, verdict[1] % what if "%s" in verdict[1] else verdict[1], loc=verdict[2])
+        else:
+            ctx.undecided(o, verdict[1])
+
+
+COLLECTS = ("::collect", "::from_iter", "::collect_vec")
+
+
+def sequence_completeness(fd, vec):
+    """how the vector `vec` is filled: unconditional pushes in loops over un-narrowed sequences, or a collect() over an
+    un-narrowed chain"""
+    pushes = [d.instr for d in fd.defs.get(vec, ()) if d.kind == "call-mut" and d.instr is not None and d.instr.callee == "alloc::vec::Vec::push"]
+    if pushes:
         for p in pushes:
             oth = only_loop_controls(fd, p)
             if oth:
-                bad.append((p, oth))
-            narrowed += loop_iterator_narrowing(fd, p)
-        if bad:
-            ctx.bad(o, "the push at %s is skipped under an extra condition at %s" % (bad[0][0].line(), bad[0][1][0][0].line()), loc=bad[0][0].line())
-        elif narrowed:
-            ctx.bad(o, "the loop feeding the push iterates a narrowed sequence (%s at %s): some %ss are never reported" % (
-                (narrowed[0].callee or "").split("::")[-1], narrowed[0].line(), what), loc=narrowed[0].line())
-        else:
-            ctx.ok(o, "%d push(es), controlled only by a loop over the un-narrowed sequence" % len(pushes))
+                return ("bad", "the push at %s is skipped under an extra condition at %s: some %%ss are never reported" % (p.line(), oth[0][0].line()), p.line())
+            nar = loop_iterator_narrowing(fd, p)
+            if nar:
+                return ("bad", "the loop feeding the push iterates a narrowed sequence (%s at %s): some %%ss are never reported" % (
+                    (nar[0].callee or "").split("::")[-1], nar[0].line()), nar[0].line())
+        return ("ok", "%d push(es), controlled only by a loop over the un-narrowed sequence" % len(pushes))
+    cols = [d.instr for d in fd.defs.get(vec, ()) if d.kind == "call-dest" and d.instr is not None and
+            any((d.instr.callee or "").endswith(c) or (d.instr.decl or "").endswith(c) for c in COLLECTS)]
+    if cols:
+        for c in cols:
+            nar = narrowing_calls(fd, c, 0)
+            if nar:
+                return ("bad", "the collected chain is narrowed by %s at %s: some %%ss are never reported" % (
+                    (nar[0].callee or "").split("::")[-1], nar[0].line()), nar[0].line())
+        return ("ok", "collected from an un-narrowed iterator chain")
+    return ("undecided", "the vector is neither filled by push nor by collect")
 
 
 def dead_heads(ctx):
@@ -236,6 +273,9 @@ def rules(ctx):
     completeness(ctx)
     formations_in_step(ctx)
     dead_heads(ctx)
+    from . import order
+    order.pair_order(ctx, "R4", only={"solution::json_serialisation::schedule_dead_head_trip", N("minimal_duration_between_nodes")})
+    order.depot_sides(ctx, "R1.depot-loads")
     # "with the input's own origin, destination and times": the model the output is read from is the input (shared with C17)
     from .C17 import loader_subset, getters
     loader_subset(ctx, ["create_service_trip.", "create_service_trip-positional", "create_maintenance.", "create_maintenance-positional"])
